@@ -140,8 +140,8 @@ func smtIntToGo(v string) string {
 	return v
 }
 
-func writeReplay(vd, prop string, fr *FuncResult, o *Obligation, cfg CheckCfg, e *Engine) *ReplayFile {
-	dir := filepath.Join(vd, "replays", prop)
+func writeReplay(vd, replaysDir, prop string, fr *FuncResult, o *Obligation, cfg CheckCfg, e *Engine) *ReplayFile {
+	dir := filepath.Join(replaysDir, prop)
 	os.MkdirAll(dir, 0o755)
 	rp := &ReplayFile{Property: prop, Obligation: o.Name, Function: fr.Key, Kind: o.Kind, Verdict: o.Verdict, Solver: o.Solver, Note: o.Note,
 		Position: posStr(o), SolverOut: o.Output, RawModel: o.Model}
